@@ -207,7 +207,7 @@ def prop_key(pr_type, pr_datasz, elfclass):
     """GNU property data selector: processor-specific ranges hold one 4-byte word;
     GNU_PROPERTY_STACK_SIZE holds a native word; everything else is raw bytes
     (the switch default).  Unknown (integer) types select the default."""
-    return (None if type(pr_type) is not str else
+    return (None if isinstance(pr_type, int) else
             ('GNU_PROPERTY_X86_*', 4, 0) if pr_type.startswith('GNU_PROPERTY_X86_') else
             ('GNU_PROPERTY_AARCH64_*', 4, 0) if pr_type.startswith('GNU_PROPERTY_AARCH64_') else
             ('GNU_PROPERTY_RISCV_*', 4, 0) if pr_type.startswith('GNU_PROPERTY_RISCV_') else
